@@ -64,6 +64,24 @@ ACTIONS = ["none", "done", "take_this", "take_other"]
 HELPERS = ["BASE", "THIS", "OTHER"]
 ALIKE = "f.BASE.orig"          # an unrelated file that merely looks like a helper: must survive resolve
 FORMATS = ["2a", "git"]
+# where OTHER / THIS have the file (BASE: src/f): (in_dst, renamed) per side
+MOVES = {"stay": ((0, 0), (0, 0)), "other_dir": ((1, 0), (0, 0)), "this_dir": ((0, 0), (1, 0)),
+         "other_name": ((0, 1), (0, 0)), "this_name": ((0, 0), (0, 1)), "other_both": ((1, 1), (0, 0)),
+         "cross": ((1, 0), (0, 1)), "both_dir": ((1, 0), (1, 0))}
+# how the merge is driven: Merge3Merger directly (cherrypick given), or through Merger.from_revision_ids with a
+# history in which BASE is a common ancestor ("merge"), is not in THIS's ancestry ("cherrypick") or is in THIS's
+# ancestry but not in OTHER's ("reverse": undoing a revision); the cherrypick flag then follows from the graph
+VIAS = {"direct": None, "merge": False, "cherrypick": True, "reverse": True}
+
+
+def _path(place):
+    return ("dst/" if place[0] else "src/") + ("g" if place[1] else "f")
+
+
+def _final_path(move):
+    """the documented outcome: directory and name each come from the side that changed them"""
+    po, pt = MOVES[move]
+    return _path(tuple(pt[i] if po[i] == 0 else po[i] for i in (0, 1)))
 
 _state = {}
 
@@ -89,11 +107,16 @@ def _regions(inp):
 
 
 def _case(kind, base, this, other, reprocess=False, show_base=False, cherrypick=False, action="none",
-          delete=(), alike=False, fmt="2a"):
+          delete=(), alike=False, fmt="2a", move="stay", via="direct"):
     """delete: helper files the user removes by hand between merge and resolve; alike: create ALIKE then too"""
     inp = {"kind": kind, "base": list(base), "this": list(this), "other": list(other), "reprocess": reprocess,
            "show_base": show_base, "cherrypick": cherrypick, "action": action,
-           "delete": [h for h in HELPERS if h in delete], "alike": bool(alike), "fmt": fmt}
+           "delete": [h for h in HELPERS if h in delete], "alike": bool(alike), "fmt": fmt,
+           "move": move, "via": via}
+    if via != "direct":
+        inp["cherrypick"] = VIAS[via]
+    if (move != "stay" or via != "direct") and fmt != "2a":
+        raise ValueError("moves / Merger-driven histories are generated for 2a trees only")
     inp["regions"] = _regions(inp)
     return inp
 
@@ -141,10 +164,42 @@ def _gen(rng, kind, psent):
     base, this, other = _tail(rng, base), _tail(rng, this), _tail(rng, other)
     if not (base or this or other):
         this = [b"t\n"]         # merge3 cannot tell bytes from str when every input is empty
+    fmt, move, via = "2a", "stay", "direct"
+    if kind == "merge":
+        r = rng.random()
+        if r < 0.25:
+            fmt = "git"
+        elif r < 0.5:
+            move = rng.choice([m for m in MOVES if m != "stay"])
+        elif r < 0.75:
+            via = rng.choice(["merge", "cherrypick", "reverse", "reverse"])
+            if via != "merge" and rng.random() < 0.7:
+                base, this, other = _cherry_sensitive(rng, base, this, other)
     return _case(kind, base, this, other, reprocess=rng.random() < 0.4, show_base=rng.random() < 0.35,
                  cherrypick=rng.random() < 0.3, action=rng.choice(ACTIONS),
                  delete=[h for h in HELPERS if rng.random() < 0.3] if rng.random() < 0.6 else [],
-                 alike=rng.random() < 0.4, fmt="git" if rng.random() < 0.3 else "2a")
+                 alike=rng.random() < 0.4, fmt=fmt, move=move, via=via)
+
+
+def _render_plain(base, this, other, cherrypick):
+    m3 = _m3({"base": base, "this": this, "other": other, "cherrypick": cherrypick})
+    return list(m3.merge_lines(name_a=b"TREE", name_b=b"MERGE-SOURCE"))
+
+
+def _cherry_sensitive(rng, base, this, other):
+    """texts whose cherrypick three-way merge differs from the plain one (inside a conflicting region OTHER
+    shares lines with BASE); falls back to the given texts"""
+    pool = [b"a\n", b"b\n", b"c\n", b"d\n", b"e\n"]
+    for _ in range(60):
+        head, foot = [b"head\n"], [b"foot\n"]
+        b_ = [rng.choice(pool) for _ in range(rng.randint(1, 3))]
+        t_ = [rng.choice(pool) for _ in range(rng.randint(1, 3))]
+        o_ = [rng.choice(pool) for _ in range(rng.randint(1, 3))]
+        cb, ct, co = head + b_ + foot, head + t_ + foot, head + o_ + foot
+        if len({tuple(cb), tuple(ct), tuple(co)}) == 3 and \
+                _render_plain(cb, ct, co, True) != _render_plain(cb, ct, co, False):
+            return cb, ct, co
+    return base, this, other
 
 
 def corpus():
@@ -174,6 +229,25 @@ def corpus():
             for k in range(4):
                 for dele in itertools.combinations(HELPERS, k):
                     out.append(_case("merge", b, t, o, action=act, delete=dele, alike=True, fmt=fmt))
+    # moves / renames of the file in OTHER and/or THIS, with a conflict (helpers must follow the file) and without
+    for mv in MOVES:
+        if mv == "stay":
+            continue
+        for act in ("take_this", "take_other", "done"):
+            out.append(_case("merge", b, t, o, action=act, alike=True, move=mv))
+        out.append(_case("merge", [b"a\n", b"b\n", b"c\n", b"d\n"], [b"A\n", b"b\n", b"c\n", b"d\n"],
+                         [b"a\n", b"b\n", b"c\n", b"D\n"], move=mv))
+    # merges driven through Merger: the cherrypick flag follows from the revision graph.  The texts are such
+    # that the cherrypick merge differs from the plain one (OTHER shares a line with BASE inside the conflict)
+    rb = [b"header\n", b"beta\n", b"delta\n", b"footer\n"]
+    rt = [b"header\n", b"xray\n", b"foxtrot\n", b"footer\n"]
+    ro = [b"header\n", b"foxtrot\n", b"beta\n", b"footer\n"]
+    if _render_plain(rb, rt, ro, True) == _render_plain(rb, rt, ro, False):
+        raise AssertionError("corpus texts no longer distinguish cherrypick from plain merges")
+    for via in ("merge", "cherrypick", "reverse"):
+        for act in ("none", "take_other"):
+            out.append(_case("merge", rb, rt, ro, action=act, via=via))
+        out.append(_case("merge", b, t, o, action="take_this", via=via))
     # the three shortcuts and a clean two-sided merge; CRLF newline detection; no trailing newline
     out.append(_case("merge", b, t, b))
     out.append(_case("merge", b, t, t))
@@ -215,6 +289,32 @@ def teardown():
     _state.clear()
 
 
+def _put(wt, rel, data):
+    with open(wt.abspath(rel), "wb") as f:
+        f.write(data)
+
+
+def _mv(wt, src, dst):
+    if src != dst:
+        wt.rename_one(src, dst)
+
+
+def _reset(wt):
+    """bring the tree back to: file at src/f, nothing else in src/ and dst/, no conflicts"""
+    if not os.path.lexists(wt.abspath("src/f")):
+        for cand in ("dst/f", "src/g", "dst/g"):
+            if os.path.lexists(wt.abspath(cand)):
+                wt.rename_one(cand, "src/f")
+                break
+        else:
+            raise AssertionError("the file disappeared from the tree")
+    for d in ("src", "dst"):
+        for n in os.listdir(wt.abspath(d)):
+            if (d, n) != ("src", "f"):
+                os.unlink(wt.abspath(d + "/" + n))
+    wt.set_conflicts([])
+
+
 def _fresh_tree(fmt):
     from breezy import controldir
     if fmt == "git":
@@ -223,44 +323,53 @@ def _fresh_tree(fmt):
     d = os.path.join(_state["dir"], "wt%d" % _state["n"])
     wt = controldir.ControlDir.create_standalone_workingtree(
         d, format=controldir.format_registry.make_controldir(fmt))
-    with open(os.path.join(d, "f"), "wb") as f:
-        f.write(b"initial\n")
+    os.mkdir(os.path.join(d, "src"))
+    os.mkdir(os.path.join(d, "dst"))
+    _put(wt, "src/f", b"initial\n")
+    _put(wt, "dst/keep", b"keeps dst/ alive in git\n")
     if fmt == "git":
-        wt.add(["f"])
+        wt.add(["src", "dst", "src/f", "dst/keep"])
     else:
-        wt.add(["f"], ids=[b"f-id"])
+        wt.add(["src", "dst", "src/f", "dst/keep"], ids=[b"src-id", b"dst-id", b"f-id", b"keep-id"])
     wt.commit("initial")
     _state["wt"][fmt] = wt
     _state["uses"][fmt] = 0
     return wt
 
 
-def _put(wt, data):
-    with open(wt.abspath("f"), "wb") as f:
-        f.write(data)
+def _snapshot(wt, fmt):
+    """[path of the file, [file, .BASE, .THIS, .OTHER, .BASE.orig, conflict recorded], path of the recorded
+    conflict, every other file found in src/ and dst/]"""
+    wt = wt.controldir.open_workingtree()
+    if fmt == "git":
+        path = "src/f"
+    else:
+        with wt.lock_read():
+            path = wt.id2path(b"f-id")
 
-
-def _snapshot(wt):
-    d = wt.basedir
-    names = sorted(n for n in os.listdir(d) if n not in (".bzr", ".git"))
-    extra = [n for n in names if n not in ("f", "f.BASE", "f.THIS", "f.OTHER", ALIKE)]
-    if extra:
-        raise AssertionError(f"unexpected files after merge: {extra!r}")
-
-    def rd(n):
-        p = os.path.join(d, n)
+    def rd(rel):
+        p = wt.abspath(rel)
         if not os.path.lexists(p):
             return None
         with open(p, "rb") as f:
             return f.read()
-    wt2 = wt.controldir.open_workingtree()
-    cs = list(wt2.conflicts())
+    known = [path, path + ".BASE", path + ".THIS", path + ".OTHER", path + ".BASE.orig"]
+    stray = []
+    for d in ("src", "dst"):
+        for n in sorted(os.listdir(wt.abspath(d))):
+            rel = d + "/" + n
+            if rel not in known and rel != "dst/keep":
+                stray.append(rel)
+    top = sorted(n for n in os.listdir(wt.basedir) if n not in (".bzr", ".git", "src", "dst"))
+    stray = top + stray
+    cs = list(wt.conflicts())
     for c in cs:
-        if c.typestring != "text conflict" or c.path != "f" or getattr(c, "file_id", b"f-id") != b"f-id":
+        if c.typestring != "text conflict" or getattr(c, "file_id", b"f-id") != b"f-id":
             raise AssertionError(f"unexpected conflict {c!r}")
     if len(cs) > 1:
         raise AssertionError(f"duplicate conflicts {cs!r}")
-    return [rd("f"), rd("f.BASE"), rd("f.THIS"), rd("f.OTHER"), rd(ALIKE), len(cs) == 1]
+    cpath = cs[0].path if cs else None
+    return [path, [rd(k) for k in known] + [len(cs) == 1], cpath, stray]
 
 
 def impl(inp):
@@ -281,50 +390,74 @@ def impl(inp):
     for ls in (base, this, other):
         if osutils.split_lines(b"".join(ls)) != ls:
             raise AssertionError("generated lines are not what get_file_lines would return")
-    fmt = inp["fmt"]
+    fmt, via = inp["fmt"], inp["via"]
+    po, pt = (_path(p) for p in MOVES[inp["move"]])
     wt = _state["wt"].get(fmt)
     if wt is None or _state["uses"][fmt] >= 40:
         wt = _fresh_tree(fmt)
     _state["uses"][fmt] += 1
-    # leftovers of the previous case
-    for n in ("f.BASE", "f.THIS", "f.OTHER", ALIKE):
-        try:
-            os.unlink(wt.abspath(n))
-        except FileNotFoundError:
-            pass
-    wt.set_conflicts([])
-    _put(wt, b"".join(base))
-    r_base = wt.commit("base")
-    _put(wt, b"".join(other))
-    r_other = wt.commit("other")
-    _put(wt, b"".join(this))
+    _reset(wt)
+    r_prev = wt.last_revision()
+    restore_parents = False
+    if via == "reverse":
+        # history: ... OTHER, BASE (tip), THIS = working file: undoing the BASE revision
+        _put(wt, "src/f", b"".join(other))
+        r_other = wt.commit("other")
+        _put(wt, "src/f", b"".join(base))
+        r_base = wt.commit("base")
+        _put(wt, "src/f", b"".join(this))
+    else:
+        _put(wt, "src/f", b"".join(base))
+        r_base = wt.commit("base")
+        _mv(wt, "src/f", po)
+        _put(wt, po, b"".join(other))
+        r_other = wt.commit("other")
+        _mv(wt, po, pt)
+        _put(wt, pt, b"".join(this))
     repo = wt.branch.repository
-    bt, ot = repo.revision_tree(r_base), repo.revision_tree(r_other)
     try:
-        _merge.Merge3Merger(working_tree=wt, this_tree=wt, base_tree=bt, other_tree=ot,
-                            reprocess=inp["reprocess"], show_base=inp["show_base"],
-                            cherrypick=inp["cherrypick"], do_merge=True)
+        if via == "direct":
+            bt, ot = repo.revision_tree(r_base), repo.revision_tree(r_other)
+            _merge.Merge3Merger(working_tree=wt, this_tree=wt, base_tree=bt, other_tree=ot,
+                                reprocess=inp["reprocess"], show_base=inp["show_base"],
+                                cherrypick=inp["cherrypick"], do_merge=True)
+        else:
+            if via == "cherrypick":
+                # THIS descends from the revision before BASE only: BASE is not in its ancestry
+                wt.branch.generate_revision_history(r_prev)
+                wt.set_parent_ids([r_prev])
+                restore_parents = True
+            with wt.lock_write():
+                merger = _merge.Merger.from_revision_ids(wt, r_other, base=r_base, other_branch=wt.branch)
+                merger.merge_type = _merge.Merge3Merger
+                merger.reprocess = inp["reprocess"]
+                merger.show_base = inp["show_base"]
+                merger.do_merge()
     except _merge.CantReprocessAndShowBase:
-        return [Err("CantReprocessAndShowBase"), _snapshot(wt)]
-    after_merge = _snapshot(wt)
+        if restore_parents:
+            (wt.branch.generate_revision_history(r_other), wt.set_parent_ids([r_other]))
+        return [Err("CantReprocessAndShowBase"), _snapshot(wt, fmt)]
+    if restore_parents:
+        (wt.branch.generate_revision_history(r_other), wt.set_parent_ids([r_other]))
+    after_merge = _snapshot(wt, fmt)
+    path = after_merge[0]
     # the user removes some helper files by hand / creates an unrelated look-alike
     for h in inp["delete"]:
         try:
-            os.unlink(wt.abspath("f." + h))
+            os.unlink(wt.abspath(path + "." + h))
         except FileNotFoundError:
             pass
     if inp["alike"]:
-        with open(wt.abspath(ALIKE), "wb") as f:
-            f.write(b"keep me\n")
+        _put(wt, path + ".BASE.orig", b"keep me\n")
     if inp["action"] != "none":
         from breezy.transform import MalformedTransform
         wt = wt.controldir.open_workingtree()
         _state["wt"][fmt] = wt
         try:
-            _conflicts.resolve(wt, ["f"], ignore_misses=True, action=inp["action"])
+            _conflicts.resolve(wt, [path], ignore_misses=True, action=inp["action"])
         except MalformedTransform:
-            return [after_merge, [Err("MalformedTransform"), _snapshot(wt)]]
-    return [after_merge, _snapshot(wt)]
+            return [after_merge, [Err("MalformedTransform"), _snapshot(wt, fmt)]]
+    return [after_merge, _snapshot(wt, fmt)]
 
 
 # ---------------------------------------------------------------- model term
@@ -350,8 +483,11 @@ def model_term(inp):
     act = {"none": "ANone", "done": "ADone", "take_this": "TakeThis", "take_other": "TakeOther"}[inp["action"]]
     rm = " ".join(coq_bool(h in inp["delete"]) for h in HELPERS)
     alike = coq_option(b"keep me\n" if inp["alike"] else None, coq_bytes)
+    def place(pl):
+        return f"{{| in_dst := {coq_bool(pl[0])}; renamed := {coq_bool(pl[1])} |}}"
+    po, pt = MOVES[inp["move"]]
     return (f"run_case {{| o_reprocess := {coq_bool(inp['reprocess'])}; o_show_base := {coq_bool(inp['show_base'])} |}} "
-            f"{b} {t} {o} {rs} {rm} {alike} {act}")
+            f"{place((0, 0))} {place(po)} {place(pt)} {b} {t} {o} {rs} {rm} {alike} {act}")
 
 
 # ---------------------------------------------------------------- the property itself
@@ -378,32 +514,50 @@ def oracle(inp, obs):
     o = b"".join(bytes(x) for x in inp["other"])
     reached = b != o and t != o and b != t
     first, second = obs
+    alike = b"keep me\n" if inp["alike"] else None
+    p_this = _path(MOVES[inp["move"]][1])
+    p_final = _final_path(inp["move"])
+
+    def state(path, files, cpath):
+        return [path, files, cpath, []]
     if isinstance(first, Err):
         if inp["reprocess"] and inp["show_base"] and reached:
-            return None if second == [t, None, None, None, None, False] else f"failed merge changed the tree: {second!r}"
+            want = state(p_this, [t, None, None, None, None, False], None)
+            return None if second == want else f"failed merge changed the tree: {second!r}"
         return f"merge raised {first}"
-    alike = b"keep me\n" if inp["alike"] else None
+    path, files, cpath, stray = first
+    if path != p_final:
+        return f"the merged file is at {path!r}, expected {p_final!r} (move {inp['move']})"
+    if stray:
+        return (f"after the merge of {path!r} these files lie around, not beside the merged file: {stray!r} "
+                f"(beside it: BASE/THIS/OTHER present = {[v is not None for v in files[1:4]]!r})")
     if inp["reprocess"] and inp["show_base"]:
         if reached:
             return "reprocess + show_base did not raise CantReprocessAndShowBase"
         # merge3 is never consulted: THIS or OTHER wins as a whole
         want = o if (b == t and b != o) else t
-        if first != [want, None, None, None, None, False]:
+        if first != state(p_final, [want, None, None, None, None, False], None):
             return f"shortcut merge produced {first!r}, expected text {want!r}"
-        return None if second == [want, None, None, None, alike, False] else f"resolve changed an unconflicted tree: {second!r}"
+        ok = second == state(p_final, [want, None, None, None, alike, False], None)
+        return None if ok else f"resolve changed an unconflicted tree: {second!r}"
     has, text = _expect(inp)
-    main, hb, ht, ho, al0, conflicted = first
+    main, hb, ht, ho, al0, conflicted = files
     if conflicted != has:
         return (f"text conflict recorded = {conflicted} but the three-way merge "
                 f"{'has' if has else 'has no'} conflicting regions")
+    if cpath != (path if has else None):
+        return f"the conflict is recorded for {cpath!r} but the conflicted file is {path!r}"
     if main != text:
-        return f"file holds {main!r}, expected {'the regions between markers' if has else 'the cleanly merged text'} {text!r}"
+        return (f"file holds {main!r}, expected {'the regions between markers' if has else 'the cleanly merged text'} "
+                f"{text!r} (three-way merge with cherrypick={inp['cherrypick']}, driven via {inp['via']})")
     if has and (hb, ht, ho) != (b, t, o):
-        return f"helper files hold {(hb, ht, ho)!r}, expected BASE/THIS/OTHER {(b, t, o)!r}"
+        return f"helper files beside {path!r} hold {(hb, ht, ho)!r}, expected BASE/THIS/OTHER {(b, t, o)!r}"
     if not has and (hb, ht, ho) != (None, None, None):
         return f"helper files exist after a clean merge: {(hb, ht, ho)!r}"
     # the tree as the user left it before resolving
-    edited = [main] + [None if (h in inp["delete"]) else v for h, v in zip(HELPERS, (hb, ht, ho))] + [alike, conflicted]
+    edited_files = ([main] + [None if (h in inp["delete"]) else v for h, v in zip(HELPERS, (hb, ht, ho))]
+                    + [alike, conflicted])
+    edited = state(path, edited_files, cpath)
     if inp["action"] == "none" or not has:
         return None if second == edited else f"tree changed although nothing was resolved: {second!r}"
     winner = {"take_this": "THIS", "take_other": "OTHER"}.get(inp["action"])
@@ -411,16 +565,16 @@ def oracle(inp, obs):
         # the text to take was removed by hand: resolving must fail and leave everything alone
         if isinstance(second, list) and len(second) == 2 and isinstance(second[0], Err):
             return None if second[1] == edited else f"failed resolve changed the tree: {second[1]!r}"
-        return f"resolve --{inp['action']} without f.{winner}: {second!r}"
+        return f"resolve --{inp['action']} without {path}.{winner}: {second!r}"
     if isinstance(second[0], Err):
-        return f"resolve --{inp['action']} raised {second[0]}"
+        return f"resolve --{inp['action']} of the conflict on {path!r} raised {second[0]} (tree: {second[1]!r})"
     want = {"take_this": t, "take_other": o, "done": main}[inp["action"]]
-    left = [n for n, v in zip(HELPERS, second[1:4]) if v is not None]
+    left = [n for n, v in zip(HELPERS, second[1][1:4]) if v is not None] + list(second[3])
     if left:
         return (f"after resolve --{inp['action']} (helpers removed by hand before: {inp['delete']!r}) the helper files "
-                f"{['f.' + n for n in left]!r} still exist")
-    if second != [want, None, None, None, alike, False]:
-        return (f"after resolve --{inp['action']}: {second!r}, expected exactly {want!r}, no helpers, "
+                f"{left!r} still exist")
+    if second != state(path, [want, None, None, None, alike, False], None):
+        return (f"after resolve --{inp['action']}: {second!r}, expected exactly {want!r} at {path!r}, no helpers, "
                 f"look-alike {alike!r} untouched, no conflict")
     return None
 
@@ -461,6 +615,17 @@ def distribution(inputs, observations):
         d["no_trailing_newline"] += any(ls and not bytes(ls[-1]).endswith(b"\n") for ls in (i["base"], i["this"], i["other"]))
         d["crlf_newline"] += bool(i["this"]) and bytes(i["this"][0]).endswith(b"\r\n")
         d["resolved"] += i["kind"] == "merge" and has and i["action"] != "none"
+        if i["kind"] == "merge":
+            d.setdefault("move:" + i["move"], 0)
+            d["move:" + i["move"]] += 1
+            d.setdefault("via:" + i["via"], 0)
+            d["via:" + i["via"]] += 1
+            d.setdefault("moved_with_conflict", 0)
+            d["moved_with_conflict"] += i["move"] != "stay" and has and reached
+            d.setdefault("graph_cherrypick_sensitive", 0)
+            if i["via"] != "direct" and has and reached:
+                d["graph_cherrypick_sensitive"] += (_render_plain(i["base"], i["this"], i["other"], True)
+                                                    != _render_plain(i["base"], i["this"], i["other"], False))
     return d
 
 
